@@ -10,28 +10,38 @@ a specification written from the property text - independent of code shape.  Pol
   * if by then every instance of the rules listed under `twins` is OK (and at least `floor` of them exist), the report is
     recorded as UNDECIDED-SHAPE in the evidence and no alarm is raised: the clause is decided by the twins on their families;
   * otherwise (a twin failed, is missing, or could not run) it is reported as before: fail closed;
-  * kind=violation reports (the shape was recognised and is wrong) are never softened, and rules not listed are never
-    softened (they decide clauses no functional rule reaches: persistence stack, who-may-read tables, capture audits, the
-    global pool typestate, subtraction obligations, bit-level obligations of C16, count-key width ...).
+  * kind=violation reports of a soft rule are kept as alarms only for the instances listed under `strong` (key prefixes): rules
+    whose verdict is *computed* - a guard or table extracted from the code and evaluated on a grid / truth table / by region
+    interpretation - so that "violation" means a recognised construct that evaluates wrongly.  The other soft rules are
+    *layout* rules (an expected statement or call at an expected place; exact site counts): six benign rounds showed that for
+    them "not found where expected" and "wrong" are not reliably distinguishable (a hoisted, folded or helper-extracted
+    statement reads as missing), while over 106 seeded changes and 117 seeded variants none of them was ever the only rule to
+    report a defect.  Their violation reports are therefore treated like anchor-lost: deferred, and recorded as
+    UNCONFIRMED-SHAPE without an alarm when every functional twin passes.  When a functional rule fails they are reported
+    alongside it (they then point at the construct);
+  * rules not listed are never softened (they decide clauses no functional rule reaches: persistence stack, who-may-read
+    tables, capture audits, the global pool typestate, subtraction obligations, bit-level obligations of C16, count-key
+    width ...).
 
 `floor` is the number of twin instances counted on the pinned tree (quick tier); fewer means a twin silently vanished.
 """
 
 SOFT = {
-    'C01': dict(twins=['C01.cli', 'C01.e2e', 'C01.func'], floor=5, soft=['C01.report', 'C01.guard', 'C01.args', 'C01.canon', 'C01.pal', 'C01.blocks']),
-    'C02': dict(twins=['C02.func'], floor=3, soft=['C02.case', 'C02.strand', 'C02.union', 'C02.window']),
-    'C03': dict(twins=['C03.cli', 'C03.func', 'C03.e2e'], floor=5, soft=['C03.gap', 'C03.fasta', 'C03.window']),
-    'C04': dict(twins=['C04.cli', 'C04.writer', 'C04.map', 'C04.ref', 'C04.e2e'], floor=7, soft=['C04.case', 'C04.prefix', 'C04.strand', 'C04.mask', 'C04.flags', 'C04.len', 'C04.window']),
-    'C05': dict(twins=['C05.cli', 'C05.e2e'], floor=2, soft=['C05.case', 'C05.gt', 'C05.base', 'C05.coord']),
-    'C06': dict(twins=['C06.cli', 'C06.func'], floor=4, soft=['C06.thresh', 'C06.stale', 'C06.flags', 'C06.fasta']),
-    'C07': dict(twins=['C07.cli', 'C07.e2e', 'C07.func'], floor=4, soft=['C07.guard', 'C07.rows', 'C07.missing']),
-    'C08': dict(twins=['C08.cli', 'C08.e2e', 'C08.func'], floor=3, soft=['C08.arity', 'C08.names', 'C08.guard']),
-    'C11': dict(twins=['C11.func', 'C11.cli'], floor=3, soft=['C11.column', 'C11.offsets', 'C11.combine']),
-    'C12': dict(twins=['C12.cli', 'C12.func'], floor=3, soft=['C12.qualcmp', 'C12.sibling', 'C12.middle', 'C12.life']),
-    'C13': dict(twins=['C13.cli', 'C13.e2e', 'C13.func'], floor=3, soft=['C13.args', 'C13.nofilter', 'C13.window']),
-    'C14': dict(twins=['C14.cli', 'C14.e2e'], floor=3, soft=['C14.const', 'C14.pair', 'C14.enum']),
-    'C16': dict(twins=['C16.func'], floor=1, soft=['C16.window']),
-    'C17': dict(twins=['C17.e2e', 'C17.cli'], floor=3, soft=['C17.gate', 'C17.missing', 'C17.len']),
-    'C18': dict(twins=['C18.e2e', 'C18.cli'], floor=2, soft=['C18.gt', 'C18.gate', 'C18.dedup']),
-    'C20': dict(twins=['C20.func', 'C20.cli'], floor=4, soft=['C20.iter', 'C20.window', 'C20.index', 'C20.grad']),
+    'C01': dict(twins=['C01.cli', 'C01.e2e', 'C01.func'], floor=6, soft=['C01.report', 'C01.guard', 'C01.args', 'C01.canon', 'C01.pal', 'C01.blocks'], strong=['C01.guard', 'C01.pal', 'C01.blocks', 'C01.canon']),
+    'C02': dict(twins=['C02.func'], floor=3, soft=['C02.case', 'C02.strand', 'C02.union', 'C02.window'], strong=['C02.window', 'C02.union', 'C02.strand:palindrome-table']),
+    'C03': dict(twins=['C03.cli', 'C03.func', 'C03.e2e'], floor=5, soft=['C03.gap', 'C03.fasta', 'C03.window'], strong=['C03.window', 'C03.gap']),
+    'C04': dict(twins=['C04.cli', 'C04.writer', 'C04.map', 'C04.ref', 'C04.e2e'], floor=7, soft=['C04.case', 'C04.prefix', 'C04.strand', 'C04.mask', 'C04.flags', 'C04.len', 'C04.window'], strong=['C04.window']),
+    'C05': dict(twins=['C05.cli', 'C05.e2e'], floor=2, soft=['C05.case', 'C05.gt', 'C05.base', 'C05.coord'], strong=['C05.gt:write_vcf:table', 'C05.base']),
+    'C06': dict(twins=['C06.cli', 'C06.func'], floor=4, soft=['C06.thresh', 'C06.stale', 'C06.flags', 'C06.fasta'], strong=['C06.stale']),
+    'C07': dict(twins=['C07.cli', 'C07.e2e', 'C07.func'], floor=4, soft=['C07.guard', 'C07.rows', 'C07.missing'], strong=['C07.guard', 'C07.rows', 'C07.missing']),
+    'C08': dict(twins=['C08.cli', 'C08.e2e', 'C08.func'], floor=3, soft=['C08.arity', 'C08.names', 'C08.guard'], strong=[]),
+    'C09': dict(twins=['C09.cli', 'C09.e2e'], floor=13, soft=['C09.k'], strong=['C09.k']),
+    'C11': dict(twins=['C11.func', 'C11.cli'], floor=4, soft=['C11.column', 'C11.offsets', 'C11.combine'], strong=['C11.column']),
+    'C12': dict(twins=['C12.cli', 'C12.func'], floor=3, soft=['C12.qualcmp', 'C12.sibling', 'C12.middle', 'C12.life'], strong=['C12.middle']),
+    'C13': dict(twins=['C13.cli', 'C13.e2e', 'C13.func'], floor=3, soft=['C13.args', 'C13.nofilter', 'C13.window'], strong=['C13.window']),
+    'C14': dict(twins=['C14.cli', 'C14.e2e'], floor=3, soft=['C14.const', 'C14.pair', 'C14.enum'], strong=['C14.enum', 'C14.const', 'C14.pair']),
+    'C16': dict(twins=['C16.func'], floor=1, soft=['C16.window'], strong=['C16.window']),
+    'C17': dict(twins=['C17.e2e', 'C17.cli'], floor=3, soft=['C17.gate', 'C17.missing', 'C17.len', 'C17.leaf'], strong=['C17.missing', 'C17.leaf:compare_samples', 'C17.leaf:sequence-codec']),
+    'C18': dict(twins=['C18.e2e', 'C18.cli'], floor=2, soft=['C18.gt', 'C18.gate', 'C18.dedup', 'C18.leaf'], strong=['C18.gate', 'C18.leaf:compare_samples', 'C18.leaf:sequence-codec']),
+    'C20': dict(twins=['C20.func', 'C20.cli'], floor=4, soft=['C20.iter', 'C20.window', 'C20.index', 'C20.grad'], strong=['C20.index:writer', 'C20.window', 'C20.grad']),
 }
